@@ -81,7 +81,15 @@ def plan(tier, seed):
     for i in range(4):
         shards.append({"kind": "pairs", "pairs": sp[i::4]})
     shards.append({"kind": "all", "paths": [list(p) for p in SPECIAL], "seed": seed + 2})
+    # hand-written multi-file layouts about references (a package spread over files that refer to each other through other
+    # packages, root <-> child cycles, packages whose names are prefixes of each other, `import public` re-exports inside
+    # the referencing package): every message / enum typed field must resolve to the class generated for its target
+    for nm in REFERENCE_SETS:
+        shards.append({"kind": "layout", "name": nm})
     return shards
+
+
+REFERENCE_SETS = ["public_import_same_package", "package_cycle", "root_cycle", "prefix_packages", "twin_map_names"]
 
 
 def fq(pkg, name):
@@ -412,6 +420,28 @@ def run_shard(shard) -> Result:
         if shard["kind"] == "pairs":
             for p, q in shard["pairs"]:
                 run_pair(p, q, res)
+        elif shard["kind"] == "layout":
+            from .. import corpus
+            from . import c03
+
+            it = {"kind": "extra", "name": shard["name"]}
+            before = len(res.violations)
+            c03.run_program(corpus.item_protos(it), corpus.item_name(it), res, {"kind": "layout", "name": shard["name"]}, each_first=True)
+            res.evaluations += 1
+            res.distinct.add("layout:" + shard["name"])
+            res.counters["layouts"] += 1
+            res.counters["sites_checked"] += res.counters.pop("comparisons", 0)
+            for k in [k for k in res.counters if k.startswith("feature")]:
+                res.counters.pop(k)
+            if res.discards.get("protoc-rejected-schema"):
+                res.inconclusive.append(f"hand-written layout {shard['name']} rejected by protoc: {res.extra.get('discard_examples')}")
+            # only what concerns references is C13's business
+            keep = [v for v in res.violations[before:] if v["sub"] in ("import", "class", "generate") or (v["sub"] == "field" and v["sig"][0] == "python-type")]
+            del res.violations[before:]
+            for v in keep:
+                v["sig"] = ["layout:" + shard["name"]] + v["sig"][:3]
+                v["sub"] = "layout-" + v["sub"]
+            res.violations.extend(keep)
         else:
             run_all(shard, res)
     except Exception as e:
@@ -421,6 +451,8 @@ def run_shard(shard) -> Result:
 
 def replay(w):
     res = Result()
+    if w.get("kind") == "layout":
+        return run_shard({"kind": "layout", "name": w["name"]}).violations
     if w.get("kind") == "pair":
         run_pair(w["p"], w["q"], res)
     else:
